@@ -118,8 +118,15 @@ func Exits(fn *ssa.Function) []Exit {
 		k := classifyReturn(ret)
 		if k == exitMaybe && len(ret.Results) > 0 {
 			op := ret.Results[len(ret.Results)-1]
-			if types.Identical(op.Type(), errorType) && knownNonNilAt(op, b) {
-				k = exitFailure
+			if types.Identical(op.Type(), errorType) {
+				// results spilled to a variable because of a defer: classify the value last stored in this block
+				if sv := spilledValue(op, ret); sv != nil {
+					op = sv
+					k = classifyErr(op, map[ssa.Value]bool{})
+				}
+				if k == exitMaybe && knownNonNilAt(op, b) {
+					k = exitFailure
+				}
 			}
 		}
 		out = append(out, Exit{ret, k})
@@ -368,4 +375,25 @@ func callsIn(fn *ssa.Function) []ssa.CallInstruction {
 		}
 	}
 	return out
+}
+
+// spilledValue: op is a load of a result variable (defer-spilled return); return
+// the value stored to that variable last in the return's block, if any.
+func spilledValue(op ssa.Value, ret *ssa.Return) ssa.Value {
+	u, ok := op.(*ssa.UnOp)
+	if !ok || u.Op != token.MUL {
+		return nil
+	}
+	a, ok := u.X.(*ssa.Alloc)
+	if !ok {
+		return nil
+	}
+	b := ret.Block()
+	var last ssa.Value
+	for _, in := range b.Instrs {
+		if st, ok := in.(*ssa.Store); ok && st.Addr == a {
+			last = st.Val
+		}
+	}
+	return last
 }
